@@ -481,6 +481,7 @@ func (a *tx3Adapter) watch(ctx context.Context, evkey string, replay bool, w *rw
 	}()
 	return nil
 }
+
 // The v3 transaction store's Close never returns once a target log exists (its WaitGroup is Add-ed per
 // log but no goroutine calls Done), so the executor only closes the test client.
 func (a *tx3Adapter) close() {}
@@ -1455,4 +1456,3 @@ func (r *real) multiVal() string {
 	}
 	return "ok vals=" + encVals(g.vals)
 }
-
